@@ -5,7 +5,8 @@ from harness import components as hc, models
 FUNCS = ['PEPit/tools/expressions_to_matrices.py::expression_to_matrices', 'PEPit/tools/expressions_to_matrices.py::expression_to_sparse_matrices',
          'PEPit/pep.py::PEP.add_constraint', 'PEPit/pep.py::PEP.set_initial_condition', 'PEPit/pep.py::PEP.set_performance_metric',
          'PEPit/function.py::Function.add_constraint', 'PEPit/block_partition.py::BlockPartition.add_constraint',
-         'PEPit/function.py::Function.set_class_constraints']
+         'PEPit/function.py::Function.set_class_constraints'] + ['PEPit/wrappers/cvxpy_wrapper.py::CvxpyWrapper.' + n for n in (
+             '_expression_to_solver', 'send_constraint_to_solver', 'send_lmi_constraint_to_solver', 'set_main_variables', 'generate_problem')]
 
 
 def tasks(run):
@@ -25,7 +26,10 @@ def run(run):
                        'function constraints / LMIs, partition constraints), each exactly once, and every cvxpy row / LMI entry row must denote the symbolic '
                        'expression at a random (G,F); also after a re-solve')
     run.trust('pyvc AST engine + z3 5.1 / cvc5 1.0.3')
-    run.assume('cvxpy API meaning (Variable, @, multiply, sum, <= 0, == 0, >> 0, Expression.value) is assumed',
+    run.assume('cvxpy API meaning is assumed and modelled by denotation (pyvc/cvxmodel.py): Variable, F @ w, sum(multiply(G, W)), +, <= 0, == 0, >= c, M[i,j] == e, >> 0, '
+               'Problem(Maximize / Minimize, constraints); Problem keeps the given constraints in order',
+               'PSDMatrix.__getitem__ returns the stored entry (numpy object-array indexing, assumed); an LMI of shape n0 x n1 is tied by rows stored at position '
+               '1 + i*n1 + j with 0 <= j < n1: that every (i, j) has its row follows from the row count 1 + n0*n1 by uniqueness of Euclidean division (arithmetic fact, not machine-checked)',
                'numpy arrays created locally are values (np.zeros, element store, .T, +, /): assumed external algebra',
                'leaf registries are injective (Reg): objects created before the last PEP() are outside every contract')
 
